@@ -1,0 +1,77 @@
+//go:build verif
+
+// Contracts for the govc verifier (see /verif/DESIGN.md). Comment-only file.
+package accounts
+
+//@ # ---------------------------------------------------------------- abstract views of the accounts module
+//@ # bal(a, addr, coin): balance; nonce(a, addr): last used nonce. The lazily loading getters and the model setters
+//@ # that define these views in terms of cache-or-tree are ASSUMED (representation axioms); the public mutators are proved.
+//@ ghost bal(a *Accounts, addr types.Address, coin types.CoinID) int
+//@ ghost nonce(a *Accounts, addr types.Address) int
+//@ ghost lockUntil(a *Accounts, addr types.Address) int
+//@ ghost modelOwner(m *Model) *Accounts
+//@ ghost modelAddr(m *Model) types.Address
+//@ ghost accountsCache() int
+
+//@ func (*Accounts).getOrNew
+//@   trusted
+//@   ensures result != nil && modelOwner(result) == a && modelAddr(result) == address
+//@   modifies accountsCache
+
+//@ func (*Accounts).GetBalance
+//@   trusted
+//@   ensures result != nil && fresh(result) && result.val == bal(a, address, coin) && result.val >= 0
+//@   modifies accountsCache
+
+//@ func (*Accounts).GetNonce
+//@   trusted
+//@   ensures result == nonce(a, address)
+//@   modifies accountsCache
+
+//@ func (*Accounts).GetLockStakeUntilBlock
+//@   trusted
+//@   ensures result == lockUntil(a, address)
+//@   modifies accountsCache
+
+//@ func (*Model).setBalance
+//@   trusted
+//@   requires amount != nil
+//@   ensures bal(modelOwner(model), modelAddr(model), coin) == old(amount.val)
+//@   modifies bal(modelOwner(model), modelAddr(model), coin), accountsCache
+
+//@ func (*Model).setNonce
+//@   trusted
+//@   ensures nonce(modelOwner(model), modelAddr(model)) == nonce
+//@   modifies nonce(modelOwner(model), modelAddr(model)), accountsCache
+
+//@ # ---------------------------------------------------------------- proved mutators (C01 truthful reporting, C02, C04)
+//@ func (*Accounts).SetBalance
+//@   serves C01 C02
+//@   let ck = a.bus.checker
+//@   requires a != nil && a.bus != nil && amount != nil
+//@   ensures set: bal(a, address, coin) == old(amount.val)
+//@   ensures reported: ledgerDelta(ck, coin) - old(ledgerDelta(ck, coin)) == bal(a, address, coin) - old(bal(a, address, coin))
+//@   modifies bal(a, address, coin), ledgerDelta(a.bus.checker, coin), accountsCache
+
+//@ func (*Accounts).AddBalance
+//@   serves C01 C02
+//@   let ck = a.bus.checker
+//@   requires a != nil && a.bus != nil && amount != nil
+//@   ensures added: bal(a, address, coin) == old(bal(a, address, coin)) + old(amount.val)
+//@   ensures reported: ledgerDelta(ck, coin) == old(ledgerDelta(ck, coin)) + old(amount.val)
+//@   modifies bal(a, address, coin), ledgerDelta(a.bus.checker, coin), accountsCache
+
+//@ func (*Accounts).SubBalance
+//@   serves C01 C02
+//@   let ck = a.bus.checker
+//@   requires a != nil && a.bus != nil && amount != nil
+//@   requires enough: bal(a, address, coin) >= amount.val && amount.val >= 0
+//@   ensures subtracted: bal(a, address, coin) == old(bal(a, address, coin)) - old(amount.val) && bal(a, address, coin) >= 0
+//@   ensures reported: ledgerDelta(ck, coin) == old(ledgerDelta(ck, coin)) - old(amount.val)
+//@   modifies bal(a, address, coin), ledgerDelta(a.bus.checker, coin), accountsCache
+
+//@ func (*Accounts).SetNonce
+//@   serves C04 C03
+//@   requires a != nil
+//@   ensures nonce(a, address) == nonce
+//@   modifies nonce(a, address), accountsCache
